@@ -1046,10 +1046,21 @@ func outName(o int) string { return []string{"accept", "reject", "panic"}[o] }
 
 // ---------------------------------------------------------------- main
 
+// seedMix decorrelates seeds: lib.NewRng(seed) is SplitMix64 started at seed*gamma,
+// so consecutive seeds give the same stream shifted by one draw.
+func seedMix(seed uint64) uint64 {
+	h := sha256.Sum256([]byte(fmt.Sprintf("verif-seed-%d", seed)))
+	var x uint64
+	for i := 0; i < 8; i++ {
+		x = x<<8 | uint64(h[i])
+	}
+	return x
+}
+
 func main() {
 	run := lib.ParseArgs()
 	elaenv.InitLog(run.Out)
-	rng := lib.NewRng(run.Seed)
+	rng := lib.NewRng(seedMix(run.Seed))
 	functions.GetTransactionByTxType = transaction.GetTransaction
 	functions.GetTransactionByBytes = transaction.GetTransactionByBytes
 	functions.CreateTransaction = transaction.CreateTransaction
